@@ -17,6 +17,15 @@ from .specs import make_store
 
 WATCHDOG_S = 30
 MAX_STEPS = 20000
+YIELD_OPS = ("sleep", "wait-timeout", "acquire-timeout", "flock-nb", "try-acquire")
+
+
+def is_yield(op):
+    """A thread about to sleep / poll / time out gives the processor away: fairness - it is scheduled after every other
+    enabled thread, and leaving it there is no pre-emption.  Without this a polling loop would spin for ever in the
+    executions that keep running the poller (Musuvathi & Qadeer, fair stateless model checking)."""
+    return op is not None and len(op) > 1 and op[0] == "lock" and op[1] in YIELD_OPS
+
 
 
 class Abort(BaseException):
@@ -353,7 +362,7 @@ def run_execution(sc, root, prefix, visited, explore=True, bound=None, observer=
                 ex.deadlock = tuple((w.name, w.pending) for w in s.workers if not w.done)
                 break
             # canonical order: the thread that ran last first (no pre-emption), then by name
-            en.sort(key=lambda w: (w is not last, w.name))
+            en.sort(key=lambda w: (is_yield(w.pending), w is not last, w.name))
             if i < len(prefix):
                 w = next((x for x in en if x.name == prefix[i]), None)
                 if w is None:
@@ -377,7 +386,7 @@ def run_execution(sc, root, prefix, visited, explore=True, bound=None, observer=
                     key = (inc.digest(), tuple(x.key() for x in s.workers),
                            tuple(sh.key() for sh in env.STATE.shims), _open_files_key(),
                            tuple(sorted((o, i_ is not None) for _, (i_, o) in env.STATE.flocks.items())),
-                           _attrs_key(store), tuple(_attrs_key(c) for c in per.values()), gstate.globals_key(),
+                           _attrs_key(store), tuple(_attrs_key(c) for c in per.values()), gstate.globals_key(), round(env.STATE.vclock, 6),
                            (last.name if last is not None and last.enabled() else None, preempt) if bound is not None else None)
                     if key in visited:
                         exploring = False
@@ -387,11 +396,12 @@ def run_execution(sc, root, prefix, visited, explore=True, bound=None, observer=
                     else:
                         visited.add(key)
                         for a in en[1:]:
-                            cost = preempt + (1 if (last is not None and last.enabled() and a is not last) else 0)
+                            cost = preempt + (1 if (last is not None and last.enabled() and not is_yield(last.pending)
+                                                    and a is not last) else 0)
                             if bound is None or cost <= bound:
                                 ex.alts.append(ex.choices + [a.name])
                 w = en[0]
-            if last is not None and w is not last and last.enabled():
+            if last is not None and w is not last and last.enabled() and not is_yield(last.pending):
                 preempt += 1
             ex.choices.append(w.name)
             i += 1
@@ -418,7 +428,9 @@ def run_execution(sc, root, prefix, visited, explore=True, bound=None, observer=
                         ex.step_violations.append((v, list(ex.choices)))
                     prev_tree = tree
             if ex.steps > MAX_STEPS:
-                raise HarnessError("step horizon exceeded in %s" % sc.name)
+                # fair scheduling and still no end: the unfinished threads poll for something nobody will provide
+                ex.deadlock = tuple((w.name, ("livelock",) + tuple(w.pending or ())[:2]) for w in s.workers if not w.done)
+                break
     finally:
         # release anything still parked (deadlock or harness error)
         for w in s.workers:
